@@ -337,7 +337,7 @@ func TestVerifC32Seq(t *testing.T) {
 	r.Assume("Calls are sequential; the tracker's Now is a logical clock advanced only by the harness.")
 	r.Assume("Expire boundary follows the method documentation: a key goes when every candidate has DeliveredAt <= now - ceil(ttl seconds); ttl <= 0 removes nothing.")
 
-	n := r.N(60_000, 1_000_000)
+	n := r.N(60_000, 1_500_000)
 	for hi := 0; hi < n; hi++ {
 		if r.Skip(hi) {
 			continue
@@ -677,7 +677,7 @@ func TestVerifC32Conc(t *testing.T) {
 	r.Assume("The logical clock is frozen while goroutines run; Reset is issued only while quiescent (its documentation requires the caller to exclude concurrent mutations).")
 	r.Assume("BindBatch/FinishBindBatch issued concurrently carry rows of one session (one shard-atomic step); cross-session batches are covered by the sequential unit.")
 
-	n := r.N(8_000, 150_000)
+	n := r.N(8_000, 200_000)
 	for hi := 0; hi < n; hi++ {
 		if r.Skip(hi) {
 			continue
@@ -769,110 +769,174 @@ func c32ConcHistory(r *verifkit.Run, hi int) {
 			}
 			var batches []ownBatch
 			hLocal := (gi + 1) * 1000
-			pick := func() tokH {
-				if len(own) == 0 || grng.IntN(12) == 0 {
-					return tokH{h: 0, p: gg.pending(gg.key(), 0, false)}
+			// The whole script is generated before the barrier so that between
+			// two calls the goroutine does almost nothing (maximises the time
+			// spent inside the tracker, hence real overlap).
+			type scriptOp struct {
+				kind  int
+				p     c32P
+				ps    []c32P
+				hs    []int
+				k     c32Key
+				sess  c32Sess
+				ttl   time.Duration
+				pickR int // < 0: zero token
+				idxR  []int
+				yield bool
+			}
+			script := make([]scriptOp, perG)
+			for i := range script {
+				op := scriptOp{yield: grng.IntN(6) == 0, pickR: grng.IntN(1 << 20)}
+				if grng.IntN(12) == 0 {
+					op.pickR = -1
 				}
-				return own[grng.IntN(len(own))]
+				x := grng.IntN(100)
+				switch {
+				case x < 22:
+					op.kind = 0
+					hLocal++
+					op.hs = []int{hLocal}
+					op.p = gg.pending(gg.key(), hLocal, false)
+				case x < 28:
+					op.kind = 1
+					hLocal++
+					op.hs = []int{hLocal}
+					op.p = gg.pending(gg.key(), hLocal, false)
+				case x < 36:
+					op.kind = 2
+					nb := 1 + grng.IntN(3)
+					sN := universe[grng.IntN(len(universe))]
+					op.ps = make([]c32P, nb)
+					op.hs = make([]int, nb)
+					for j := range op.ps {
+						hLocal++
+						op.hs[j] = hLocal
+						op.ps[j] = gg.pending(c32Key{sN.UID, sN.Sess, msgs[grng.IntN(len(msgs))]}, hLocal, false)
+					}
+				case x < 50:
+					op.kind = 3
+					op.p = gg.pending(gg.key(), 0, false)
+				case x < 54:
+					op.kind = 4
+					op.p = gg.pending(gg.key(), 0, false)
+					op.idxR = make([]int, 1+grng.IntN(3))
+					for j := range op.idxR {
+						op.idxR[j] = grng.IntN(1 << 20)
+					}
+				case x < 66:
+					op.kind = 5
+					op.p = gg.pending(gg.key(), 0, false)
+				case x < 80:
+					op.kind = 6
+					op.k = gg.key()
+				case x < 85:
+					op.kind = 7
+					op.sess = universe[grng.IntN(len(universe))]
+				case x < 92:
+					op.kind = 8
+					op.ttl = []time.Duration{500 * time.Millisecond, time.Second, 2 * time.Second, 3 * time.Second, 4 * time.Second}[grng.IntN(5)]
+				default:
+					op.kind = 9
+				}
+				script[i] = op
+			}
+			out := make([]c32Rec, 0, perG)
+			pick := func(op *scriptOp) tokH {
+				if len(own) == 0 || op.pickR < 0 {
+					return tokH{h: 0, p: op.p}
+				}
+				return own[op.pickR%len(own)]
 			}
 			start.Wait()
-			// spin barrier: all goroutines are running before the first call, so
-			// the short calls really overlap (bounded; falls through if starved).
+			// spin barrier: all goroutines are running before the first call
+			// (bounded; falls through if starved).
 			arrived.Add(1)
 			for spin := 0; arrived.Load() < int32(G) && spin < 200_000; spin++ {
 				if spin&63 == 63 {
 					runtime.Gosched()
 				}
 			}
-			for i := 0; i < perG; i++ {
+			for i := range script {
+				op := &script[i]
 				var subs []c32Sub
 				var call, ret int64
-				if grng.IntN(6) == 0 {
+				if op.yield {
 					runtime.Gosched()
 				}
-				x := grng.IntN(100)
-				switch {
-				case x < 22:
-					hLocal++
-					p := gg.pending(gg.key(), hLocal, false)
+				switch op.kind {
+				case 0:
 					call = clock.Add(1)
-					tok, s2, d := c.bindResult(p, hLocal)
+					tok, s2, d := c.bindResult(op.p, op.hs[0])
 					ret = clock.Add(1)
 					subs = s2
 					if d != "" {
 						gDirect[gi] = append(gDirect[gi], d)
 					}
-					own = append(own, tokH{hLocal, p, tok})
+					own = append(own, tokH{op.hs[0], op.p, tok})
 					gToks[gi] = append(gToks[gi], tok)
-				case x < 28:
-					hLocal++
-					p := gg.pending(gg.key(), hLocal, false)
+				case 1:
 					call = clock.Add(1)
-					_, subs = c.bind(p, hLocal)
+					_, subs = c.bind(op.p, op.hs[0])
 					ret = clock.Add(1)
-				case x < 36:
-					nb := 1 + grng.IntN(3)
-					s := universe[grng.IntN(len(universe))]
-					ps := make([]c32P, nb)
-					hs := make([]int, nb)
-					for j := range ps {
-						hLocal++
-						hs[j] = hLocal
-						ps[j] = gg.pending(c32Key{s.UID, s.Sess, msgs[grng.IntN(len(msgs))]}, hLocal, false)
-					}
+				case 2:
 					call = clock.Add(1)
-					tk, s2, d := c.bindBatch(ps, hs)
+					tk, s2, d := c.bindBatch(op.ps, op.hs)
 					ret = clock.Add(1)
 					subs = s2
 					if d != "" {
 						gDirect[gi] = append(gDirect[gi], d)
 					}
-					for j := range ps {
-						own = append(own, tokH{hs[j], ps[j], tk[j]})
+					for j := range op.ps {
+						own = append(own, tokH{op.hs[j], op.ps[j], tk[j]})
 						gToks[gi] = append(gToks[gi], tk[j])
 					}
-					batches = append(batches, ownBatch{ps, hs, tk})
-				case x < 50:
-					th := pick()
+					batches = append(batches, ownBatch{op.ps, op.hs, tk})
+				case 3:
+					th := pick(op)
 					call = clock.Add(1)
 					subs = c.finish(th.p, th.h, th.tok)
 					ret = clock.Add(1)
-				case x < 54 && len(batches) > 0:
-					b := batches[grng.IntN(len(batches))]
-					idx := make([]int, 1+grng.IntN(3))
+				case 4:
+					if len(batches) == 0 {
+						th := pick(op)
+						call = clock.Add(1)
+						subs = c.finish(th.p, th.h, th.tok)
+						ret = clock.Add(1)
+						break
+					}
+					b := batches[op.pickR&0xffff%len(batches)]
+					idx := make([]int, len(op.idxR))
 					for j := range idx {
-						idx[j] = grng.IntN(len(b.ps))
+						idx[j] = op.idxR[j] % len(b.ps)
 					}
 					call = clock.Add(1)
 					subs = c.finishBatch(b.ps, b.hs, b.toks, idx)
 					ret = clock.Add(1)
-				case x < 66:
-					th := pick()
+				case 5:
+					th := pick(op)
 					call = clock.Add(1)
 					subs = c.cancel(th.p, th.h, th.tok)
 					ret = clock.Add(1)
-				case x < 80:
-					k := gg.key()
+				case 6:
 					call = clock.Add(1)
-					subs = c.ack(k, 0)
+					subs = c.ack(op.k, 0)
 					ret = clock.Add(1)
-				case x < 85:
-					s := universe[grng.IntN(len(universe))]
+				case 7:
 					call = clock.Add(1)
-					subs = c.closeSess(s.UID, s.Sess)
+					subs = c.closeSess(op.sess.UID, op.sess.Sess)
 					ret = clock.Add(1)
-				case x < 92:
-					ttl := []time.Duration{500 * time.Millisecond, time.Second, 2 * time.Second, 3 * time.Second, 4 * time.Second}[grng.IntN(5)]
+				case 8:
 					call = clock.Add(1)
-					subs = c.expire(ttl)
+					subs = c.expire(op.ttl)
 					ret = clock.Add(1)
 				default:
 					call = clock.Add(1)
 					subs = c.count()
 					ret = clock.Add(1)
 				}
-				gRecs[gi] = append(gRecs[gi], c32Rec{G: gi + 1, Call: call, Ret: ret, Subs: subs})
+				out = append(out, c32Rec{G: gi + 1, Call: call, Ret: ret, Subs: subs})
 			}
+			gRecs[gi] = out
 		}(gi)
 	}
 	finished := verifkit.Watchdog(5*time.Minute, func() {
